@@ -419,7 +419,12 @@ def rvalue(M,fr,t):
         c,pa=M.resolve(fr,M.parse_place(m.group(2))); e=getp(c,pa)
         if not isinstance(e,Enum): raise Unsupported(f'discriminant of {e}')
         d=discr_of(e)
-        return Int(d,64,True) if isinstance(d,int) else Int(z3.ZeroExt(56,d),64,True)
+        if isinstance(d,int): return Int(d,64,True)
+        if e.ty in ENUM_DISCR:      # symbolic variant index -> declared discriminant (Ordering: -1,0,1)
+            vals=[ENUM_DISCR[e.ty][v] for v in ENUMS[e.ty]]; t=z3.BitVecVal(vals[-1],64)
+            for k in range(len(vals)-2,-1,-1): t=z3.If(d==k,z3.BitVecVal(vals[k],64),t)
+            return Int(t,64,True)
+        return Int(z3.ZeroExt(56,d),64,True)
     if m and m.group(1)=='PtrMetadata':
         return Int(len(items(deref(operand(M,fr,m.group(2))))),64)
     if m and m.group(1)=='Len':
@@ -852,7 +857,11 @@ def call_model(M,st,fr,callee,args):
         f=resolve_callee(M,f'<{m.group(1)} as PartialOrd>::partial_cmp')
         if f:
             which=m.group(2)
-            return Redirect(f,args,lambda r,which=which: Bool({'lt':r.f[0].var=='Less','le':r.f[0].var in('Less','Equal'),'gt':r.f[0].var=='Greater','ge':r.f[0].var in('Greater','Equal')}[which]))
+            def post(r,which=which):
+                v=r.f[0].var
+                if isinstance(v,str): return Bool({'lt':v=='Less','le':v in('Less','Equal'),'gt':v=='Greater','ge':v in('Greater','Equal')}[which])
+                return mkbool({'lt':v==0,'le':z3.ULE(v,1),'gt':v==2,'ge':z3.UGE(v,1)}[which])
+            return Redirect(f,args,post)
     m=re.match(r'^<(.*) as PartialEq>::ne$',c)
     if m:
         f=resolve_callee(M,f'<{m.group(1)} as PartialEq>::eq')
@@ -865,8 +874,13 @@ def call_model(M,st,fr,callee,args):
             return Redirect(f,[deref_once(args[0]),deref_once(args[1])],(lambda r: mkbool(z3.Not(r.z()))) if neg else None)
     # ---- scalars
     if c in('<isize as PartialOrd>::partial_cmp','<isize as Ord>::cmp'):
-        a,b=deref(args[0]),deref(args[1]); x,y=a.sval(),b.sval()
-        o=Enum('Ordering','Less' if x<y else 'Equal' if x==y else 'Greater',[])
+        a,b=deref(args[0]),deref(args[1])
+        if a.conc() and b.conc():
+            x,y=a.sval(),b.sval()
+            o=Enum('Ordering','Less' if x<y else 'Equal' if x==y else 'Greater',[])
+        else:
+            x,y=a.z(),b.z()
+            o=Enum('Ordering',z3.If(x<y,z3.BitVecVal(0,8),z3.If(x==y,z3.BitVecVal(1,8),z3.BitVecVal(2,8))),[])
         return some(o) if 'partial' in c else o
     if c=='f32::<impl f32>::sqrt': return Flt(z3.fpSqrt(RNE,args[0].v))
     if c=='f32::<impl f32>::floor': return Flt(z3.fpRoundToIntegral(z3.RTN(),args[0].v))
